@@ -31,6 +31,37 @@ INT_RET = {"spif_tls_handle_t", "spif_stridx_t", "spif_ustridx_t", "spif_memidx_
 UINT_RET = {"unsigned char": "(unsigned char) -1", "size_t": "(size_t) -1", "unsigned long": "(unsigned long) -1", "spif_uint32_t": "(spif_uint32_t) -1"}
 
 
+SIGNED_INT = {"spif_memidx_t", "spif_stridx_t", "spif_ustridx_t", "spif_listidx_t", "spif_int32_t", "int", "long", "spif_tls_handle_t",
+              "short", "spif_int64_t", "spif_int16_t", "spif_int8_t"}
+UNSIGNED_INT = {"size_t", "unsigned long", "unsigned short", "unsigned char", "unsigned int", "spif_uint8_t", "spif_uint32_t",
+                "spif_sockport_t", "spif_uint16_t", "spif_uint64_t"}
+VLETTER = {"mid": "m", "zero": "z", "neg": "n", "allnull": "a"}
+
+
+def int_kind(t, n):
+    """same definition as tools/c16_gen_table.py: integer companion arguments that the variants set to 0 / -1"""
+    t = re.sub(r"\b(register|const)\s+", "", t).strip()
+    if n == "fd":
+        return None
+    return "s" if t in SIGNED_INT else ("u" if t in UNSIGNED_INT else None)
+
+
+def variants_of(row):
+    v = ["mid"]
+    if row.get("nint", 0) > 0:
+        v.append("zero")
+    if row.get("nsigned", 0) > 0:
+        v.append("neg")
+    if row.get("allnull"):
+        v.append("allnull")
+    return v
+
+
+def is_pointer_type(t):
+    return snapper(t) is not None or "*" in t or t in ("spif_class_t", "spif_ptr_t", "ctx_handler_t", "spifconf_func_ptr_t",
+                                                       "spif_thread_func_t", "spif_thread_data_t", "spif_condition_t")
+
+
 def ctype(t):
     t = re.sub(r"^register\s+", "", t)
     if t.endswith("_iterator_t") and t != "spif_iterator_t":
@@ -103,14 +134,25 @@ def accessor(row):
     return "%s->%s" % (row["classvar"], row["member"])
 
 
-def gen_case(row):
+def gen_case(row, variant="mid"):
     ps = [(ctype(t), n) for t, n in row["params"] if t != "..."]
+    raw = [(t, n) for t, n in row["params"] if t != "..."]
     ret = ctype(row["ret"])
-    lines = ["static void case_%d(void) {   /* %s  %s */" % (row["id"], row["key"], row["func"])]
+    lines = ["static void case_%d_%s(void) {   /* %s  %s  variant %s */" % (row["id"], VLETTER[variant], row["key"], row["func"], variant)]
+    nulls = set()
     for k, (t, n) in enumerate(ps):
-        val = "(%s) NULL" % t if k == row["pos"] else factory(row, t, n)
+        ik = int_kind(raw[k][0], n)
+        if k == row["pos"] or (variant == "allnull" and ik is None and is_pointer_type(t)):
+            val = "(%s) NULL" % t
+            nulls.add(k)
+        elif variant == "zero" and ik:
+            val = "0"
+        elif variant == "neg" and ik == "s":
+            val = "-1"
+        else:
+            val = factory(row, t, n)
         lines.append("    %s a%d = %s;" % (t, k, val))
-    snaps = [(k, snapper(t)) for k, (t, n) in enumerate(ps) if k != row["pos"] and snapper(t)]
+    snaps = [(k, snapper(t)) for k, (t, n) in enumerate(ps) if k not in nulls and snapper(t)]
     args = ", ".join("a%d" % k for k in range(len(ps)))
     if row["via"] == "direct":
         call = "%s(%s)" % (row["func"], args)
@@ -149,10 +191,11 @@ def gen_source(rows, path):
             kind = re.match(r"SPIF_(\w*)CLASS_VAR", cv).group(1).lower()
             f.write("extern spif_%sclass_t %s;\n" % (kind, cv))
         f.write("\n")
-        for r in rows:
-            f.write(gen_case(r) + "\n\n")
+        cases = [(r, v) for r in rows for v in variants_of(r)]
+        for r, v in cases:
+            f.write(gen_case(r, v) + "\n\n")
         f.write("static const struct ng_case NG_CASES[] = {\n")
-        f.write(",\n".join("    { %d, case_%d }" % (r["id"], r["id"]) for r in rows))
+        f.write(",\n".join("    { %d, '%s', case_%d_%s }" % (r["id"], VLETTER[v], r["id"], VLETTER[v]) for r, v in cases))
         f.write("\n};\n#define NG_MAIN\n#include \"null_guard_rt.h\"\n")
 
 
@@ -169,7 +212,9 @@ def load_table():
     if n != len(rows):
         raise Broken("NullGuardTable.tla has %d rows, its JSON twin %d" % (n, len(rows)))
     for r in rows:
-        if '[id |-> %d, key |-> "%s", fail |-> "%s", claimed |-> %s,' % (r["id"], r["key"], r["fail"] or "NONE", "TRUE" if r["claimed"] else "FALSE") not in twin:
+        if '[id |-> %d, key |-> "%s", fail |-> "%s", claimed |-> %s, guard |-> "%s", nint |-> %d, nsigned |-> %d, allnull |-> "%s"]' % (
+                r["id"], r["key"], r["fail"] or "NONE", "TRUE" if r["claimed"] else "FALSE", r["guard"] or "none", r["nint"], r["nsigned"],
+                r["allnull"] or "NONE") not in twin:
             raise Broken("row %d (%s) differs between NullGuardTable.tla and its JSON twin" % (r["id"], r["key"]))
     return rows
 
@@ -201,8 +246,8 @@ def header_scan(ctx, rows):
 def run_cases(ctx, exe, pairs, tag, verbose=False):
     path = os.path.join(ctx.rundir, "cases-%s.txt" % tag)
     with open(path, "w") as f:
-        for rid, lv in pairs:
-            f.write("%d %d\n" % (rid, lv))
+        for rid, lv, v in pairs:
+            f.write("%d %s %d\n" % (rid, VLETTER[v], lv))
     from vlib.replay import ASAN_OPTS
     env = dict(os.environ, ASAN_OPTIONS=ASAN_OPTS, LC_ALL="C")
     if verbose:
@@ -221,7 +266,7 @@ def run_cases(ctx, exe, pairs, tag, verbose=False):
         if not line.startswith("E "):
             continue
         f = dict(x.split("=", 1) for x in line.split()[1:])
-        events.append({"op": "call", "row": int(f["row"]), "level": int(f["level"]), "ended": f["ended"], "rv": f.get("rv", "-"),
+        events.append({"op": "call", "row": int(f["row"]), "variant": {v: k for k, v in VLETTER.items()}[f["variant"]], "level": int(f["level"]), "ended": f["ended"], "rv": f.get("rv", "-"),
                        "changed": f.get("changed") == "1", "heapdelta": int(f.get("heapdelta", "0")), "diag": f.get("diag", "-"),
                        "status": int(f.get("status", "0")), "info": f.get("info", "-")})
     if len(events) != len(pairs):
@@ -247,14 +292,18 @@ def describe(e):
     return "ended=%s rv=%s changed=%s heapdelta=%d diag=%s status=%d" % (e["ended"], e["rv"], e["changed"], e["heapdelta"], e["diag"], e["status"])
 
 
+def expected(row, variant):
+    return row["allnull"] if variant == "allnull" else row["fail"]
+
+
 def failure_class(e, row):
     if e["ended"] in ("crash", "signal"):
         m = re.search(r"AddressSanitizer:_(\S+?)_", e["info"] + "_")
         return "memory-fault/%s" % (m.group(1) if m else e["ended"])
     if e["ended"] == "exit":
-        return "exit-at-level-0" if e["level"] == 0 and e["diag"] == "fatal" else "exit-without-fatal-diagnostic/%s" % e["diag"]
-    if e["rv"] != row["fail"]:
-        return "returns-%s-not-%s" % (re.sub(r"\d+", "N", e["rv"]), row["fail"])
+        return "exit-at-level-0" if (e["level"] == 0 and e["diag"] == "fatal") else "exit-without-fatal-diagnostic/%s" % e["diag"]
+    if e["rv"] != expected(row, e["variant"]):
+        return "returns-%s-not-%s" % (re.sub(r"\d+", "N", e["rv"]), expected(row, e["variant"]))
     if e["changed"]:
         return "changes-another-argument"
     if e["heapdelta"]:
@@ -270,11 +319,12 @@ def run(ctx):
     allowed = {}
     for _, _, e in g.edges:
         if e["op"] == "call":
-            allowed.setdefault((e["args"][0], e["pre"]["level"]), set()).add(e["ret"])
+            allowed.setdefault((e["args"][0], e["pre"]["level"], e["args"][2]), set()).add(e["ret"])
     claimed = [r for r in rows if r["claimed"]]
-    levels = sorted({lv for _, lv in allowed})
-    if {rid for rid, _ in allowed} != {r["id"] for r in claimed}:
-        raise Broken("TLC paired %d rows, the table claims %d" % (len({rid for rid, _ in allowed}), len(claimed)))
+    levels = sorted({lv for _, lv, _ in allowed})
+    if {(rid, v) for rid, _, v in allowed} != {(r["id"], v) for r in claimed for v in variants_of(r)}:
+        raise Broken("TLC paired %d (row, variant) cases, the table has %d" % (len({(rid, v) for rid, _, v in allowed}),
+                                                                              sum(len(variants_of(r)) for r in claimed)))
     unc = header_scan(ctx, rows)
     # the generated harness: one case per claimed row
     src = os.path.join(ctx.rundir, "null_guard_cases.c")
@@ -291,17 +341,18 @@ def run(ctx):
     for k in sorted(rejected):
         e = events[k]
         # determinism: a rejected case is run once more in isolation
-        e2 = run_cases(ctx, exe, [(e["row"], e["level"])], "again")[0]
+        e2 = run_cases(ctx, exe, [(e["row"], e["level"], e["variant"])], "again")[0]
         if describe(e2) != describe(e):
             raise Broken("case %s at level %d does not repeat: %s / %s" % (byid[e["row"]]["key"], e["level"], describe(e), describe(e2)))
         row = byid[e["row"]]
-        key = "%s level%s %s" % (row["key"], "=0" if e["level"] == 0 else ">=1", failure_class(e, row))
-        what = ("%s (%s, owner %s) with NULL for parameter %d '%s' at runtime level %d: %s; contract: %s%s. %s" % (
-            row["func"], row["file"], row["owner"], row["pos"], row["pname"], e["level"], describe(e), row["fail"],
+        vtag = {"mid": "", "zero": " ints=0", "neg": " ints=-1", "allnull": " all-pointers-NULL"}[e["variant"]]
+        key = "%s%s level%s %s" % (row["key"], vtag, "=0" if e["level"] == 0 else (">=1" if e["level"] == 1 else ">=2"), failure_class(e, row))
+        what = ("%s (%s, owner %s) with NULL for parameter %d '%s'%s at runtime level %d: %s; contract: %s%s. %s" % (
+            row["func"], row["file"], row["owner"], row["pos"], row["pname"], vtag, e["level"], describe(e), expected(row, e["variant"]),
             " or the fatal-error path" if e["level"] >= 1 else "", e["info"][:160]))
-        ctx.report(key, what, {"row": row["id"], "key": row["key"], "level": e["level"], "event": e, "table_row": row})
+        ctx.report(key, what, {"row": row["id"], "key": row["key"], "level": e["level"], "variant": e["variant"], "event": e, "table_row": row})
         seen += 1
-    nontrivial = {(e["row"], e["level"]) for e in events}
+    nontrivial = {(e["row"], e["level"], e["variant"]) for e in events}
     ctx.add("evaluations", len(events))
     ctx.cov["distinct_nontrivial"] = len(nontrivial)
     ctx.cov["events_validated_by_tlc"] = len(events)
@@ -320,7 +371,8 @@ def run(ctx):
                        "the row's position, factory-made valid arguments elsewhere) and the recorded event is judged by TLC; every case "
                        "is a distinct (row, level) pair and non-trivial (it exercises a distinct guard or its absence)")
     for e in events[:2] + events[len(events) // 2: len(events) // 2 + 2]:
-        ctx.sample({"row": byid[e["row"]]["key"], "level": e["level"], "observed": describe(e), "contract": byid[e["row"]]["fail"]})
+        ctx.sample({"row": byid[e["row"]]["key"], "variant": e["variant"], "level": e["level"], "observed": describe(e),
+                    "contract": expected(byid[e["row"]], e["variant"])})
     ctx.assumptions += ["spec/NullGuardTable.json/.tla is the reviewed contract (seeded from the pinned sources, rules R1-R6 in tools/c16_gen_table.py)",
                         "ASan build of the current tree, compile-time DEBUG as configured (4)"]
 
@@ -334,8 +386,8 @@ def replay(ctx, path):
     gen_source([r for r in rows if r["claimed"]], src)
     libdir, cflags = build.build_lib(ctx.repo)
     exe = build.build_harness("null_guard", [src], libdir, cflags)
-    e = run_cases(ctx, exe, [(rp["row"], rp["level"])], "replay", verbose=True)[0]
+    e = run_cases(ctx, exe, [(rp["row"], rp["level"], rp.get("variant", "mid"))], "replay", verbose=True)[0]
     rejected, _ = validate(ctx, [e], tag="replay")
-    print("%s level %d: %s  (%s)" % (row["key"], rp["level"], describe(e), e["info"]))
+    print("%s variant %s level %d: %s  (%s)" % (row["key"], rp.get("variant", "mid"), rp["level"], describe(e), e["info"]))
     print("REPRODUCED (rejected by NullGuardTrace)" if rejected else "not reproduced: event accepted")
     return 1 if rejected else 0
